@@ -25,11 +25,12 @@ TECHNIQUE = "TLA+ spec of the CDC pipeline (FIFO / high-water mark / leadership 
 
 NEG = (("OneGroupPerEntry", "NoSkip"), ("LabelEveryGroup", "Labelled"), ("KeyByHighest", "NoSkip"),
        ("SyncFlushBeforeSnapshot", "NoSkip"), ("DrainInBeforeSync", "NoSkip"), ("HWMAfterSendOK", "NoSkip"),
-       ("PruneToHWMOnly", "NoSkip"), ("RewindCursor", "NoSkip"), ("RestartHWMBelowLowest", "NoSkip"),
+       ("PruneToHWMOnly", "NoSkip"), ("RewindCursor", "NoSkip"), ("ParkedKeptUntilSent", "NoSkip"),
+       ("RestartHWMBelowLowest", "NoSkip"),
        ("DropReapplied", "TenureOrder"))
 
 
-ACTIONS = ("Apply", "Ingest", "Flush", "Take", "SendOK", "Gain", "Lose", "Broadcast", "LeaderPrune", "FollowerRecv",
+ACTIONS = ("Apply", "Ingest", "Flush", "Take", "TakeParked", "SendOK", "Signal", "MainHandle", "LoopExit", "Broadcast", "LeaderPrune", "FollowerRecv",
            "SnapshotSync", "Restart", "EndpointDown", "EndpointUp")
 
 
@@ -43,9 +44,9 @@ def design(ctx):
             add0(key, n)
     ctx.add = add
     jobs = []
-    mc = [("CDC_mc.cfg", 1), ("CDC_mc_restart.cfg", 1), ("CDC_mc_chan.cfg", 1)]
+    mc = [("CDC_mc.cfg", 2), ("CDC_mc_restart.cfg", 1), ("CDC_mc_chan.cfg", 1), ("CDC_mc_1n.cfg", 1)]
     if ctx.thorough:
-        mc += [("CDC_mc_full.cfg", 2), ("CDC_mc_async.cfg", 2), ("CDC_mc_restart2.cfg", 2), ("CDC_mc_4e.cfg", 2), ("CDC_mc_3n.cfg", 2)]
+        mc += [("CDC_mc_unl.cfg", 2), ("CDC_mc_full.cfg", 2), ("CDC_mc_async.cfg", 2), ("CDC_mc_restart2.cfg", 2), ("CDC_mc_4e.cfg", 2), ("CDC_mc_3n.cfg", 2)]
     with ThreadPoolExecutor(max_workers=ctx.pick(4, 2)) as ex:
         for cfg, w in mc:
             # a configuration leaves out some features (restart, separate in-channel, asynchronous HWM updates); vacuity is
@@ -112,6 +113,12 @@ def make_key(rows):
         if name.startswith("hwm-passed-undelivered"):
             where = "at-restart" if ev == "cdc.open" else str(bad.get("role", "?"))
             return "cdc:%s:%s" % (name, where)
+        # a batch parked by a stopped leader loop that is never sent: name the history class
+        if name in ("unsent-batch-skipped-after-leadership-change", "lost:unsent-batch-skipped-after-leadership-change"):
+            node = bad.get("inst") if ev == "cdc.take" else None
+            flaps = [r for r in ctxrows if r.get("ev") == "c.flap" and r.get("parked") and (node is None or r.get("node") == node)]
+            after = ":after=flap-burst-while-parked" if flaps else ""
+            return "cdc:%s%s%s" % (name, ":at=cdc.take" if ev == "cdc.take" else "", after)
         if name.startswith("lost:"):
             return "cdc:" + name
         return "cdc:%s:at=%s" % (name, ev)
